@@ -132,6 +132,31 @@ theorem ginv_xstep (s : XDisk) (g : RecvG) (x : XOp) (h : GInv s.d g) (hok : okX
       split
       · exact ginv_step s.d g .rdbClose h trivial
       · exact hb
+  | rdbCommitFail chunk ren rmOk =>
+    have hb : GInv (xbase s (.rdbAppend chunk)).1.d (recvStep g (.rdbAppend chunk)) :=
+      ginv_xbase s g (.rdbAppend chunk) h hok
+    simp only [xstep, recvOp]
+    cases hr : s.d.rdb with
+    | none => exact hb
+    | some r =>
+      simp only []
+      split
+      · rename_i hc
+        simp only [Bool.and_eq_true, decide_eq_true_eq] at hc
+        obtain ⟨hw, hlen⟩ := hc
+        have hcur := (h.held r hr).1
+        refine ⟨?_, ?_, ?_⟩
+        · rw [(show (s.d.step .rdbClose).1.runId = s.d.runId by simp only [Disk.step, hr, hw, if_true])]
+          simp only [recvStep, hcur, hw, if_true]
+          exact h.rid
+        · intro r' hr'
+          simp only [Disk.step, hr, hw, if_true] at hr'
+          cases hr'
+        · intro _ x hx
+          simp only [recvStep, hcur, hw, if_true] at hx
+          cases hx
+          simp [hlen]
+      · exact hb
   | gcRmFail stuck all =>
     simp only [xstep, recvOp, recvStep]
     exact ginv_gcZ h _
@@ -227,6 +252,7 @@ theorem srcOkXB_sound (src : Nat → UInt8) : ∀ (xs : List XOp) (s : XDisk), s
     | aofCloseRmFail => trivial
     | rdbCloseRmFail => trivial
     | gcRmFail st al => trivial
+    | rdbCommitFail c ren rm => trivial
 
 theorem wfXB_sound (s : XDisk) (xs : List XOp) (h : wfXB s xs = true) : wfX s xs := by
   simpa [wfXB] using h
